@@ -572,6 +572,11 @@ def bool_function(body, atom_filter=None):
         ok = True
         for (d, vals, allv, ty) in path_conditions(body, p):
             if ty != "bool":
+                # `matches!(x, Enum::V)`: a switch on a discriminant against one variant is the bool atom `discr(x) == v`
+                ds = strip_refs(d)
+                if ds.k == "discr" and len(allv) == 1 and (vals == "otherwise" or vals == tuple(allv)):
+                    conds.append((E("bin", "Eq", ds, E("const", ("int", allv[0]))), vals != "otherwise"))
+                    continue
                 ok = False
                 break
             pol = (vals == "otherwise") if allv == (0,) else (vals != (0,) if vals != "otherwise" else True)
@@ -588,12 +593,15 @@ def bool_function(body, atom_filter=None):
     return out
 
 
-def truth_table(body, atoms):
+def truth_table(body, atoms, rewrite=None):
     """atoms: list of (name, predicate(E)->bool) identifying the atoms. Returns
-    {assignment tuple: bool} by evaluating every path; None when not decidable."""
+    {assignment tuple: bool} by evaluating every path; None when not decidable.
+    `rewrite` maps a condition E to an equivalent E over the atoms (e.g. `discr == other variant` → ¬atom)."""
     bf = bool_function(body)
     if bf is None:
         return None
+    if rewrite is not None:
+        bf = [([(rewrite(d), pol) for (d, pol) in conds], ret) for conds, ret in bf]
 
     def atom_index(e):
         e = strip_refs(e)
@@ -1407,6 +1415,16 @@ class PredEval:
             if k == "drop" and t.get("target") is not None:
                 bb = t["target"]
                 continue
+            if k == "assert":
+                c = self._op(b, t["cond"], env, depth)
+                if not isinstance(c, (bool, int)) or isinstance(c, tuple):
+                    res = None
+                    break
+                if bool(c) == bool(t["expected"]):
+                    bb = t["target"]
+                    continue
+                res = ("diverges", "assert:" + str(t.get("kind")))
+                break
             res = None
             break
         return res
@@ -1516,6 +1534,13 @@ class PredEval:
             return av[0]
         if name.endswith("char::methods::<impl char>::is_ascii") and isinstance(av[0], int):
             return av[0] < 0x80
+        if (name in ("<char as std::convert::From<u8>>::from", "<u32 as std::convert::From<char>>::from", "<u32 as std::convert::From<u8>>::from",
+                     "<u32 as std::convert::From<u16>>::from", "<u16 as std::convert::From<u8>>::from")
+                or name.endswith("<impl std::convert::From<u8> for char>::from") or name.endswith("<impl std::convert::From<char> for u32>::from")) \
+                and len(av) == 1 and isinstance(av[0], int) and not isinstance(av[0], bool):
+            return av[0]
+        if name.endswith("char::methods::<impl char>::from_u32") and len(av) == 1 and isinstance(av[0], int) and not isinstance(av[0], bool):
+            return ("some", av[0]) if (0 <= av[0] < 0xD800 or 0xE000 <= av[0] < 0x110000) else ("none",)
         return None
 
     def _conv(self, j):
@@ -1623,12 +1648,31 @@ class PredEval:
                 return (l and r) if isinstance(l, bool) else (l & r)
             if op == "BitOr":
                 return (l or r) if isinstance(l, bool) else (l | r)
+            base = op[:-len("WithOverflow")] if op.endswith("WithOverflow") else op
+            if base in ("Add", "Sub", "Mul") and not isinstance(l, bool) and not isinstance(r, bool):
+                # fixed-width unsigned arithmetic (the operand type is in the facts); anything else is not evaluated
+                ty = (rv["l"].get("place") or {}).get("ty") or rv["l"].get("ty") or (rv["r"].get("place") or {}).get("ty") or rv["r"].get("ty")
+                bits = _UINT_BITS.get(ty)
+                if bits is None:
+                    return None
+                exact = l + r if base == "Add" else (l - r if base == "Sub" else l * r)
+                wrapped = exact % (1 << bits)
+                if op.endswith("WithOverflow"):
+                    return ("tuple", (wrapped, wrapped != exact))
+                return wrapped if wrapped == exact else None       # a plain op that overflows panics in debug builds
             return None
         if k == "unop" and rv["op"] == "Not":
             x = self._op(b, rv["x"], env)
             return None if x is None else (not x)
         if k == "cast":
-            return self._op(b, rv["op"], env)
+            v = self._op(b, rv["op"], env)
+            if rv.get("kind") == "IntToInt" and isinstance(v, int) and not isinstance(v, bool):
+                bits = _UINT_BITS.get(rv.get("ty"))
+                if bits is not None:
+                    return v % (1 << bits)
+                if rv.get("ty") != "char" and v < 0:
+                    return None
+            return v
         if k == "discr":
             v = self._place(rv["place"], env)
             if isinstance(v, tuple) and v and v[0] in ("some", "none"):
@@ -1659,6 +1703,9 @@ class PredEval:
             if r is True:
                 out.add(c)
         return out
+
+
+_UINT_BITS = {"u8": 8, "u16": 16, "u32": 32, "u64": 64, "usize": 64}
 
 
 BENGALI_DOMAIN = [chr(c) for c in range(0x0980, 0x0A00)] + ["‌", "‍", "a", "Z", "0", " ", ".", "।", "॥"]
